@@ -29,8 +29,8 @@ done
 D=/verif/seeded/$NAME; mkdir -p "$D"
 if [ "$(readlink -f "$SRC")" != "$(readlink -f "$D")" ]; then
   cp "$SRC/patch.diff" "$D/"; cp "$SRC/meta.json" "$D/agent_meta.json" 2>/dev/null
-  for f in "$SRC"/demo.sh "$SRC"/*.go "$SRC"/*.c "$SRC"/*.h "$SRC"/demo_output.txt; do [ -f "$f" ] && cp "$f" "$D/"; done
-  [ -d "$SRC/stubs" ] && cp -r "$SRC/stubs" "$D/"
+  # everything the demonstration needs, sub-directories (stub headers, helper programs) included
+  rsync -a --exclude patch.diff --exclude meta.json --exclude '*.orig' --exclude '.go.sum*' "$SRC"/ "$D"/
 fi
 {
  echo "{"
